@@ -87,6 +87,24 @@ def run(chk):
     sources = chk.corpus() + prog.repo_test_inputs()[:: chk.scale(3, 1)]
     for i in range(chk.scale(150, 2500)):
         sources.append(gen_c.program(rng, shorts=rng.random() < 0.3, inline_rate=0.2, gotos=True).text)
+    # deterministic idiom matrices (tools/matrix.py): every block sets its own operands; compiled plain and with
+    # --insert_code at -O1, executed — a listing comment between two instructions must not change what a peephole
+    # rule concludes
+    import matrix
+    for p_ in matrix.all_programs(["restore", "update-then-test", "triples"]):
+        a = h.compile(p_.text, 1); b = h.compile(p_.text, 1, flags=("ic",))
+        chk.count("matrix_listing")
+        if a["status"] != "ok" or b["status"] != "ok":
+            if a["status"] != b["status"]:
+                chk.fail("option-changes-acceptance", "flags ('ic',): %s, plain %s" % (b["status"], a["status"]), {"source": p_.text})
+            continue
+        chk.case(key=("mx", p_.text), nontrivial=True)
+        states, lay = coexec.init_states(a, 1, seed=1)
+        o1, _ = coexec.run_all(m, "c11m", a, states, lay)
+        o2, _ = coexec.run_all(m, "c11m", b, states, lay)
+        if o1 and o2 and [coexec.observable(x, lay[3]) for x in o1] != [coexec.observable(x, lay[3]) for x in o2]:
+            chk.fail("listing-changes-behaviour", "--insert_code changes what a block of the %s matrix computes at -O1" % p_.matrix,
+                     {"source": p_.text, "plain": coexec.describe(lay[3], o1[0]), "listing": coexec.describe(lay[3], o2[0])})
     for idx, src in enumerate(sources):
         base = h.compile(src, 1)
         variants = []
